@@ -30,6 +30,8 @@ def strategy(draw):
 
 
 def exclude(ctx, case, model):
+    if D.d23_shape(case["program"]):
+        return "D23"  # open finding recorded under C14 (library-made __new__ shadows another base's __new__)
     return None
 
 
